@@ -229,13 +229,14 @@ class _WindSock:
 
     def vector_for_range(self, next_range: float) -> "Vector":
         """Updates the wind vector if `next_range` surpasses `self.next_range`."""
-        if next_range >= self.next_range:
+        # a reading can lie beyond several boundaries at once (winds sharing an until-distance, or ending at 0)
+        while next_range >= self.next_range:
             self.current += 1
             if self.current >= self._length:
                 self._last_vector_cache = Vector(0.0, 0.0, 0.0)
                 self.next_range = Wind.MAX_DISTANCE_FEET
-            else:
-                self.update_cache()  # This will trigger cache updates.
+                break
+            self.update_cache()  # This will trigger cache updates.
         return self.current_vector()
 
 
